@@ -262,7 +262,9 @@ def _check_array_chunks(H, sect, m, tag="array"):
         payload = found.get(ch["chnm"])
         if payload is None:
             # only elidable payloads may be absent
-            H.check(f"{tag}.{ch['name']}.absent_only_if_default", ch["name"] == "note_pitch_curve" and H.eq(list(arr.values), list(arr.default)))
+            # compared with the SPECIFICATION's default (the class-level default list is code under test)
+            H.check(f"{tag}.{ch['name']}.absent_only_if_default", ch["name"] == "note_pitch_curve" and isinstance(ch.get("default"), list)
+                    and H.eq(list(arr.values), list(ch["default"])))
             continue
         H.check(f"{tag}.{ch['name']}.length", len(payload) == n * sz)
         vals = [F.M.unpack(code, payload[i * sz:(i + 1) * sz])[0] for i in range(n)] if len(payload) == n * sz else None
